@@ -54,6 +54,7 @@ SALT_Q = R("salt_q", "salt_q.cfg", rounds=3, expect_ops=["add_salt", "add_salt_w
 TRACE_WALK = dict(name="trace_walk", kind="trace", driver="tracecheck", gen_args=["--traces", 24, "--len", 150],
                   expect_ops=["add_assertion_envelope", "elide_set", "encrypt_subject", "decrypt_subject", "compress", "uncompress", "encode_decode", "remove_present", "replace_subject", "add_salt"])
 TRACE_WALK_T = dict(TRACE_WALK, name="trace_walk_t", gen_args=["--traces", 120, "--len", 300, "--max-elements", 60])
+TRACE_ORDER = dict(name="trace_order", kind="trace", driver="tracecheck", gen_args=["--mode", "order"], expect_ops=["add_assertion_envelope", "encode_decode"])
 TRACE_SALT = dict(name="trace_salt", kind="trace", driver="tracecheck", gen_args=["--mode", "salt", "--reps", 16], expect_ops=["add_salt"])
 TRACE_SALT_T = dict(TRACE_SALT, name="trace_salt_t", gen_args=["--mode", "salt", "--reps", 128])
 
@@ -67,8 +68,8 @@ EXPR_Q = R("expr_q", "expr_q.cfg", expect_ops=["expression", "request", "respons
 PLAN = {
     "C01": dict(
         rule="every transition TLC explores in the bounded machine (all call sequences up to the depth bound over the listed action families, 2 registers, atoms a1,a2 + known value 1, plus every clear shape of <= 5 elements as input to the obscuring calls) is executed against the real library in several concretisation rounds (atoms -> typed values of every leaf CBOR type); the digest of the result and of every element of it must equal SHA-256 evaluated from the specification's digest term. non-trivial = distinct (call, expected result) pairs whose result has >= 2 elements or is an error",
-        quick=[CORE_ALL3, OBS_Q, TRACE_WALK],
-        thorough=[CORE_ALL3, CORE_T, OBS_Q, OBS_Q2, TRACE_WALK_T],
+        quick=[CORE_ALL3, OBS_Q, TRACE_WALK, TRACE_ORDER],
+        thorough=[CORE_ALL3, CORE_T, OBS_Q, OBS_Q2, TRACE_WALK_T, TRACE_ORDER],
     ),
     "C02": dict(
         rule="every shape of <= 5 elements x every target subset (<= 3 digests incl. an absent one) x both modes x {elide, encrypt, compress} and the whole-envelope calls, then a second obscuring call on the result; digests at every surviving position compared with the specification's terms",
@@ -80,8 +81,8 @@ PLAN = {
     ),
     "C04": dict(
         rule="all mutating action families from the empty register file, depth <= 3 (all families) and <= 4 (construct/assertions/wrap); serialized bytes of every result must equal the evaluated wire term whose node arrays are sorted by the real digest bytes",
-        quick=[CORE_ALL3, TWIN_Q, TRACE_WALK],
-        thorough=[CORE_ALL3, CORE_T, TWIN_Q, TRACE_WALK_T],
+        quick=[CORE_ALL3, TWIN_Q, TRACE_WALK, TRACE_ORDER],
+        thorough=[CORE_ALL3, CORE_T, TWIN_Q, TRACE_WALK_T, TRACE_ORDER],
     ),
     "C05": dict(
         rule="encode->decode (bytes, CBOR value and UR string variants) of every envelope reachable in the bounded machine; decoded projection identical and re-encoding byte-identical",
@@ -89,8 +90,8 @@ PLAN = {
     ),
     "C07": dict(
         rule="all insertion sequences of the bounded machine; results compared with the order-free (set based) specification term, byte for byte",
-        quick=[CORE_Q, TWIN_Q],
-        thorough=[CORE_T, CORE_ALL3, TWIN_Q],
+        quick=[CORE_Q, TWIN_Q, TRACE_ORDER],
+        thorough=[CORE_T, CORE_ALL3, TWIN_Q, TRACE_ORDER, TRACE_WALK_T],
     ),
     "C08": dict(
         rule="every shape (<= 4 elements, nodes of 5) x keys {k1,k2} x encrypt_subject / encrypt / elide_set(Encrypt), then a key-holding adversary (forge_encrypted: content vs declared digest mismatch for every register pair; tamper: ciphertext / nonce / tag / aad, random bit per round) or add_assertion / second encryption, then decrypt_subject / decrypt with each key",
